@@ -403,8 +403,13 @@ where
     where
         I: BinningIndex,
     {
-        let (reference_sequence_id, reference_sequence_name) = resolve_region(index, region)?;
-        let chunks = index.query(reference_sequence_id, region.interval())?;
+        let (reference_sequence_id, reference_sequence_name) =
+            resolve_region(header, index, region)?;
+
+        let chunks = match reference_sequence_id {
+            Some(id) => index.query(id, region.interval())?,
+            None => Vec::new(),
+        };
 
         Ok(Query::new(
             self.get_mut(),
